@@ -281,6 +281,16 @@ func main() {
 		ev.Functions = append(ev.Functions, short(r.Key))
 		ex := Extraction{Function: short(r.Key), Instrs: r.Instrs, Inlined: r.Inlined, Abstracted: r.Notes}
 		ev.Extraction = append(ev.Extraction, ex)
+		if ct := e.DB.Contracts[r.Key]; ct != nil {
+			for _, cl := range ct.Assumes {
+				ev.addAssumption("assumes clause of " + short(r.Key) + ": " + cl.Text)
+			}
+			for id, cls := range ct.LoopAssume {
+				for _, cl := range cls {
+					ev.addAssumption(fmt.Sprintf("assumes clause of %s, loop %d: %s", short(r.Key), id, cl.Text))
+				}
+			}
+		}
 		for _, k := range r.UsedContracts {
 			if ct := e.DB.Contracts[k]; ct != nil && (ct.Lib || ct.Trusted) {
 				ev.addAssumption("assumed contract: " + short(k))
